@@ -18,6 +18,13 @@ DIGIT_PATTERNS = [("v", 3), ("r", 2), ("t", 4), ("n", 2)]
 def make_spec(rng, idx=0):
     used = set()
 
+    def feature(p=0.5):
+        """optional shapes are switched systematically over the configurations of one run (all on in the
+        first, all off in the second, drawn at random from the third on): which shapes a run covers does
+        not depend on the random stream"""
+        r = rng.random()
+        return True if idx % 3 == 0 else (False if idx % 3 == 1 else r < p)
+
     def fresh(pool):
         c = [x for x in pool if x not in used]
         x = rng.choice(c)
@@ -30,6 +37,10 @@ def make_spec(rng, idx=0):
     used.update([spec["project_key"], spec["type_key"]])
     spec["projects"] = rng.sample(["hamlet", "macbeth", "lear", "othello"], rng.randint(1, 2))
     spec["leaf_key"] = rng.choice(["ext", "fmt", "suffix0"])
+    # a leaf key NAMED like the suffix of a leaf type ('<basetype>__scenes_file' is the type of scene files,
+    # not "the type named after the key scenes_file"): type names carry no meaning
+    if feature(0.3):
+        spec["leaf_key"] = "scenes_file"
     used.add(spec["leaf_key"])
     spec["version_key"] = rng.choice(["version", "rev0", "iter"])
     spec["state_key"] = rng.choice(["state", "status0"])
@@ -62,7 +73,7 @@ def make_spec(rng, idx=0):
         spec["basetypes"].append({"name": name, "code": code, "folder": name.upper() + "S", "levels": levels, "groups": groups})
     # a basetype that ends on the VERSION level (no states, no files): its leaf key is an intermediate key
     # of the other basetypes ("a leaf key per basetype": nothing may assume that all basetypes share one)
-    if rng.random() < 0.5:
+    if feature():
         name = rng.choice([x for x in ["edit", "reel", "board"] if x not in names])
         code = rng.choice([c for c in ["d", "r", "b", "q"] if c not in codes])
         levels = []
@@ -74,10 +85,12 @@ def make_spec(rng, idx=0):
                 levels.append({"key": k, "free": False, "digits": (rng.choice(["cut", "rl"]), 2)})
         spec["basetypes"].append({"name": name, "code": code, "folder": name.upper() + "S", "levels": levels, "groups": [], "short": True})
     spec["aliases"] = {"cache": ["abc", "vdb", "fur", "json"], "movie": ["mp4", "mov", "avi"]}
-    spec["third_path_config"] = rng.random() < 0.7
-    spec["default_not_first"] = rng.random() < 0.5
+    spec["third_path_config"] = feature(0.7)
+    spec["default_not_first"] = feature()
+    # an explicitly declared MID-CHAIN level (with undeclared levels above it): extrapolation skips it and goes on
+    spec["declared_mid_level"] = feature()
     # documented usage: intermediate types extrapolated from a LEAF type (its name suffix is not its last key)
-    spec["extrapolate_from_leaf"] = rng.random() < 0.5
+    spec["extrapolate_from_leaf"] = feature()
     return spec
 
 
@@ -142,6 +155,10 @@ def write_package(spec, directory):
         else:
             sid_templates.append(("%s__%s" % (b, S), full))
             to_extrapolate.append("%s__%s" % (b, S))
+        if spec.get("declared_mid_level") and len(bt["levels"]) >= 2:
+            j = len(bt["levels"]) - 1          # the deepest level key: the levels above it stay undeclared
+            sid_templates.append(("%s__%s" % (b, bt["levels"][j]["key"]),
+                                  head + "/" + "/".join("{%s}" % l["key"] for l in bt["levels"][:j + 1])))
         sid_templates.append((b, head))
         key_types[b] = keys + [E]
         leaf_keys[b] = E
